@@ -27,6 +27,7 @@ var commands = map[string]func(args map[string]string){
 	"worker":    cmdWorker,
 	"exclusive": cmdExclusive,
 	"pubsub":    cmdPubSub,
+	"caster":    cmdCaster,
 }
 
 // usage: harness <driver> -k v -k v ...
